@@ -418,7 +418,9 @@ impl<'a> Converter<'a> {
     }
 
     fn emit_always_body(&mut self, node: &RefNode<'a>) {
-        if let Some(s) = unwrap_node!(node.clone(), StatementOrNull) {
+        // The always construct's own statement, not the first `StatementOrNull`
+        // below it: for `always_comb begin s1; s2; end` that would be `s1` alone.
+        if let Some(s) = unwrap_node!(node.clone(), Statement) {
             self.emit_statement(&s);
         }
     }
